@@ -70,17 +70,18 @@ impl<'v> Evaluator<'v, '_, '_> {
         // Several local slots can carry the same name: the variable of a comprehension has a slot
         // of its own, after the function's locals. Between statements the name denotes the
         // function's local, which is the first slot of that name.
-        let mut pushed: SmallMap<FrozenStringValue, u32> = SmallMap::new();
+        // Value: the slot, and whether the local was assigned.
+        let mut pushed: SmallMap<FrozenStringValue, (u32, bool)> = SmallMap::new();
         if let Some(names) = &locals {
             for (slot, name) in names.iter().enumerate() {
                 if pushed.contains_key(name) {
                     continue;
                 }
-                pushed.insert(*name, slot as u32);
-                if let Some(value) = self
+                let value = self
                     .current_frame
-                    .get_slot_slow(LocalSlotIdCapturedOrNot(slot as u32))
-                {
+                    .get_slot_slow(LocalSlotIdCapturedOrNot(slot as u32));
+                pushed.insert(*name, (slot as u32, value.is_some()));
+                if let Some(value) = value {
                     self.module_env.set(name, value);
                 }
             }
@@ -94,9 +95,20 @@ impl<'v> Evaluator<'v, '_, '_> {
         if let Some(names) = &locals {
             for (slot, name) in names.iter().enumerate() {
                 if let Some(value) = self.module_env.get(name) {
-                    // Only the slot the value came from receives it back.
-                    if pushed.get(name) != Some(&(slot as u32)) {
-                        continue;
+                    // Only the slot the value came from receives it back; a local that was not
+                    // assigned stays unassigned unless the statements assigned the name (what the
+                    // module holds under that name is then not what it held before).
+                    match pushed.get(name) {
+                        Some((s, assigned)) if *s == slot as u32 => {
+                            let untouched = match original_module.get(name) {
+                                Some(Some(orig)) => orig.ptr_eq(value),
+                                _ => false,
+                            };
+                            if !*assigned && untouched {
+                                continue;
+                            }
+                        }
+                        _ => continue,
                     }
                     self.current_frame
                         .set_slot_slow(LocalSlotIdCapturedOrNot(slot as u32), value)
